@@ -62,7 +62,7 @@ def raw_tag(s):
 
 
 def in_retry_range(v):
-    return (19000 <= v <= 19999) or (1 <= v <= 1000)
+    return (19000 <= v <= 19999) or (0 <= v <= 1000)
 
 
 def field_tag(s):
@@ -1279,6 +1279,23 @@ PROTO_KEYWORDS = ["message", "repeated", "oneof", "option", "enum", "import", "p
 def adv_static_schemas():
     """Adversarial identifier / value choices that need no search."""
     out = []
+    # identity hierarchies: a leaf identity is a value of the enum of every base above it.  The base schema
+    # references only the middle base; the '+leaf' variant adds an unrelated leaf that references the root base
+    # (one more enum appears, the middle enum's value numbers have no reason to change); 'rerun' repeats the
+    # generation (map iteration order differs between runs).
+    for i in range(6):
+        sfx = "%d" % i
+        ids = ("  identity HROOT%s;\n  identity HMID%s { base HROOT%s; }\n  identity HLEAF-A%s { base HMID%s; }\n"
+               "  identity HLEAF-B%s { base HMID%s; }\n  identity HSIDE%s { base HROOT%s; }\n") % ((sfx,) * 9)
+        body = ids + "  container c {\n    leaf m { type identityref { base HMID%s; } }\n    leaf w { type string; }\n  }\n" % sfx
+        both = ids + ("  container c {\n    leaf m { type identityref { base HMID%s; } }\n"
+                      "    leaf r { type identityref { base HROOT%s; } }\n  }\n") % (sfx, sfx)
+        out.append(dict(id="adv-identity-hier-%d" % i, cls="identities:hierarchy:one-base-referenced", top=["advh.yang"],
+                        files={"advh.yang": yang_module("advh", body)}, expect={}, flags=[],
+                        want_stability=True, unrel_leaf_type="identityref { base HROOT%s; }" % sfx))
+        if i < 3:
+            out.append(dict(id="adv-identity-hier-both-%d" % i, cls="identities:hierarchy:two-bases-referenced", top=["advh.yang"],
+                            files={"advh.yang": yang_module("advh", both)}, expect={}, flags=[], want_stability=True))
 
     def add(sid, cls, modname, body, expect=None, flags=None):
         out.append(dict(id=sid, cls=cls, files={modname + ".yang": yang_module(modname, body)}, top=[modname + ".yang"],
@@ -1662,11 +1679,11 @@ UNREL_MODULE = yang_module("zzunrel", "  container zzunrel-top {\n    leaf zza {
 CONTAINER_RE = re.compile(r"\bcontainer\s+[A-Za-z_][\w.\-]*\s*\{(?=\s*leaf\s)")
 
 
-def add_unrelated_leaf(text):
+def add_unrelated_leaf(text, leaftype="string"):
     m = CONTAINER_RE.search(text)
     if not m:
         return None
-    return text[:m.end()] + "\n    leaf zzunrel-leaf { type string; }\n" + text[m.end():]
+    return text[:m.end()] + "\n    leaf zzunrel-leaf { %s }\n" % tstmt(leaftype) + text[m.end():]
 
 
 # ----------------------------------------------------------------------------------------------
@@ -1802,7 +1819,7 @@ def make_jobs(schema, optnames, casedir, bindir, stability):
             top = list(schema["top"])
             if kind == "leaf":
                 t0 = top[0]
-                mod = add_unrelated_leaf(files[t0])
+                mod = add_unrelated_leaf(files[t0], schema.get("unrel_leaf_type", "string"))
                 if mod is None:
                     continue
                 files[t0] = mod
@@ -1936,7 +1953,7 @@ def _run(tier, seed, replay, extra):
             r.hit("adversarial:live-search")
     for s in adv:
         s["source"] = "adversarial"
-        s["stability"] = s["id"] == "adv-normal"
+        s["stability"] = s["id"] == "adv-normal" or bool(s.get("want_stability"))
         schemas.append(s)
     by_id = {s["id"]: s for s in schemas}
 
